@@ -13,7 +13,7 @@ R-C01-5  guard discipline (shared instances of C08's rules): error suppression s
 """
 import ast
 
-from ..hints import Valuer, all_cases, paths_to, NeedCase, Undecidable, Contradiction
+from ..hints import pre_assume, replay, Valuer, all_cases, paths_to, NeedCase, Undecidable, Contradiction
 from ..loader import norm, AnalysisError, parents
 from ..poly import P
 from .c06 import get_interp
@@ -59,18 +59,11 @@ def site_results(fi, call, premises=(), honest_premise=True):
                 v.assume(t_i, False)
             for nm, tr in premises:
                 v.assume(ast.Name(id=nm, ctx=ast.Load()), tr)
-            for t, pol in path.conds:
-                v.assume(t, pol)
+            pre_assume(v, path)
             return v
 
         def build(v, path=path):
-            for name, node in path.assigns:
-                try:
-                    v.env[name] = v.val(node)
-                except Undecidable:
-                    v.env[name] = P.sym("?%s@%d" % (name, getattr(node, "lineno", 0)))
-            for t, pol in path.conds:
-                v.assume(t, pol)
+            replay(v, path)
             return v._p(v_) * v._p(w_) - v._p(y_)
         out.append((path, all_cases(build, assumptions)))
     return out
